@@ -265,13 +265,16 @@ Section Funding.
   Definition release (ids : list N) (w : wallet) : wallet := set_reserved false ids w.
   Definition reserved_ids (w : wallet) : list N := map (fun e => uid (fst e)) (filter snd w).
 
-  (* Ledger.get_spendable_utxos (the selection; reservation is done by the caller below) *)
-  Definition spendable (s : strategy) (w : wallet) (amount : Z) : list utxo :=
+  (* Ledger.get_spendable_utxos: what is selected from the unreserved rows read under the lock
+     (the reservation itself is done by the caller below) *)
+  Definition choose_from (s : strategy) (free : list utxo) (amount : Z) : list utxo :=
     let fee := CHANGE_EST_SIZE * fpb in
     match s with
-    | Sqlite => sqlite_select (unreserved w) (amount + fee) (Z.min (Z.max (amount / 10) 1) 1)
-    | _ => select amount fee s (unreserved w)
+    | Sqlite => sqlite_select free (amount + fee) (Z.min (Z.max (amount / 10) 1) 1)
+    | _ => select amount fee s free
     end.
+  Definition spendable (s : strategy) (w : wallet) (amount : Z) : list utxo :=
+    choose_from s (unreserved w) amount.
 
   (* ---------------------------------------------------------------- Transaction.create *)
   Record outp := mkO { oamount : Z; osize : Z; oname : option Z }.   (* oname: claim_name length *)
